@@ -6,6 +6,8 @@
 // Operands: lw (N x 1 log-weights), state (dim x N), mean (dim x N), cov (dim_cov x dim_cov*N),
 // int seed, int draws (number of resample calls on the same object; the last one
 // is reported), kind "prior": ratio (1 x 1), meta init=count|grid (grid: nx, ny).
+// meta ctor=default (plain: Resampling(), seed 1) | ctor=2 (prior: (init, ratio), seed 1) | ctor=1 (prior: (init), ratio 0.5, seed 1):
+// the generator writes the seed / ratio these constructors stand for into the case, so both sides use the same numbers.
 // The random offset is mirrored: same engine, same seed, same order of draws.
 #define VF_MAIN
 #include "common.hpp"
@@ -93,7 +95,8 @@ int main() {
         // meta xfer: the resampler used is obtained from the seeded one by copy / move construction or assignment
         const std::string xfer = c.m("xfer", "none");
         if (c.kind == "plain") {
-            Resampling r0(seed);
+            Resampling r0_seeded(seed), r0_default;
+            Resampling r0(c.m("ctor", "seed") == "default" ? r0_default : r0_seeded);
             Resampling other(seed + 12345u);
             if (xfer == "move_assign") other = std::move(r0);
             else if (xfer == "copy_assign") other = r0;
@@ -118,7 +121,10 @@ int main() {
             // "gridfail": a grid whose size does not match num_prior: initialize() returns false and writes nothing
             if (c.m("init") == "grid" || c.m("init") == "gridfail") init.reset(new GridInit((unsigned)c.mi("nx"), (unsigned)c.mi("ny")));
             else init.reset(new CountingInit());
-            ResamplingWithPrior r0(std::move(init), ratio, seed);
+            const std::string ctor = c.m("ctor", "3");
+            ResamplingWithPrior r0(ctor == "1" ? ResamplingWithPrior(std::move(init))
+                                   : ctor == "2" ? ResamplingWithPrior(std::move(init), ratio)
+                                   : ResamplingWithPrior(std::move(init), ratio, seed));
             ResamplingWithPrior other(std::unique_ptr<ParticleSetInitialization>(new CountingInit()), 0.125, seed + 999u);
             if (xfer == "move_assign") other = std::move(r0);
             ResamplingWithPrior r(xfer == "move_assign" ? std::move(other) : std::move(r0));   // move construction in every case
